@@ -4,10 +4,10 @@ CONSTANTS RY = 2
           NY = 8
           NX = 8
           NS = 2
-          NM = 2
+          NM = 1
           Pos <- PosDef
           PropR = 1
           PropC = 1
           TwiddleBug = TRUE
 INVARIANT IntensityConserved
-INVARIANT Orthogonal
+INVARIANT WaveEnergy
